@@ -378,3 +378,13 @@ BREAKING += [
     ('c01-pack-closure-kw-swap', ['C01'], [(A, _RESOLVE_OLD, _RESOLVE_CLOSURE.replace("*args, aq, rl = item.args()", "*args, rl, aq = item.args()"))]),
     ('c02-pack-closure-fmt', ['C02'], [(A, _RESOLVE_OLD, _RESOLVE_CLOSURE.replace("fmt = '<H' if isinstance(item, CompressedInstruction) else '<I'", "fmt = '<I' if isinstance(item, CompressedInstruction) else '<H'"))]),
 ]
+
+_UTYPE_INIT = "class UTypeInstruction(Instruction):\n\n    def __init__(self, line, name, rd, imm):\n        super().__init__(line)\n        self.name = name\n        self.rd = rd\n        self.imm = imm"
+_UTYPE_INIT_SWAPPED = "class UTypeInstruction(Instruction):\n\n    def __init__(self, line, name, rd, imm):\n        super().__init__(line)\n        self.name = name\n        self.imm = imm\n        self.rd = rd"
+PRESERVING += [
+    # a keyword rebuild does not depend on the attribute order (other checks have their own, positional, reading of the rebuild)
+    ('p-rebuild-keyword', ['C01'], [(A, "new_item = item.__class__(*d.values())", "new_item = item.__class__(**d)", 'all'), (A, _UTYPE_INIT, _UTYPE_INIT_SWAPPED)]),
+]
+BREAKING += [
+    ('c01-rebuild-type-order', ['C01'], [(A, "new_item = item.__class__(*d.values())", "new_item = type(item)(*d.values())", 'all'), (A, _UTYPE_INIT, _UTYPE_INIT_SWAPPED)]),
+]
